@@ -152,7 +152,24 @@ VFits(r) ==
 VRt(r) == IF r.error # "" THEN {M("rt.error", r.layout, r.error)}
           ELSE {M("rt.viewEqual", r.diff[k][1], r.diff[k][2]) : k \in 1..Len(r.diff)}
 
-Verdict(r) == CASE r.k = "rle" -> VRle(r) [] r.k = "unrle" -> VUnRle(r)
+(* ---- optional parts ------------------------------------------------------------------------ *)
+\* c: the combination the specification enumerated; obs: the same description of what was re-read;
+\* diff: projection labels that differ between the value assigned and the value re-read
+\* Two combinations have no encoding of their own in the file format:
+\*  - a brush model WITH solids and phys_keyvalues = None is written with a one-byte (NUL) text section, which is
+\*    also what an empty Keyvalues block serialises to: it reads back as the empty block;
+\*  - a static prop lump with NO props has no record whose size would tell the formats sharing one version number
+\*    apart: the format name read back is whichever the reader picks for that number.
+PartExpected(c) == IF c.lump = "bmodels" /\ c.kv = "none" /\ c.solids > 0 THEN [c EXCEPT !.kv = "empty"] ELSE c
+PartLabelExcused(c, label) == \/ c.lump = "bmodels" /\ c.kv = "none" /\ c.solids > 0 /\ label = "BModel.phys_keyvalues:type"
+                              \/ c.lump = "props" /\ c.count = 0 /\ label = "StaticProps.version"
+VPart(r) ==
+    LET want == PartExpected(r.c) IN
+    IF r.error # "" THEN {M("part.error", r.c.lump, r.error)}
+    ELSE {M("part.lost", r.c.lump, f) : f \in {x \in DOMAIN want : x \notin DOMAIN r.obs \/ r.obs[x] # want[x]}}
+         \cup {M("part.viewEqual", r.c.lump, r.diff[k][2]) : k \in {x \in 1..Len(r.diff) : ~PartLabelExcused(r.c, r.diff[x][2])}}
+
+Verdict(r) == CASE r.k = "part" -> VPart(r) [] r.k = "rle" -> VRle(r) [] r.k = "unrle" -> VUnRle(r)
                 [] r.k = "foi" -> VFoi(r) [] r.k = "foe" -> VFoe(r)
                 [] r.k = "vis" -> VVis(r) [] r.k = "graph" -> VGraph(r)
                 [] r.k = "prop" -> VProp(r) [] r.k = "fits" -> VFits(r) [] r.k = "rt" -> VRt(r)
